@@ -243,6 +243,29 @@ def exec_params():
     return out
 
 
+def ctx_params():
+    out = dict(serial='false', fork='false', spawn='false')
+    se = _find(_src('runners/serial.py'), 'SerialRunner', 'wait')
+    if se is not None and 'filtered_context=task.filter_context(self.context)' in ast.unparse(se):
+        out['serial'] = 'true'
+    pr = _src('runners/process.py')
+    fk = _find(pr, 'ForkProcessRunner', '_fork_subprocess_func')
+    if fk is not None and 'filtered_context=task.filter_context(runner_memory.context)' in ast.unparse(fk):
+        out['fork'] = 'true'
+    sp = _find(pr, 'SpawnProcessRunner', '_submit_task')
+    if sp is not None:
+        src = ast.unparse(sp)
+        if 'filtered_context = task.filter_context(self.context)' in src and 'filtered_context=filtered_context' in src:
+            out['spawn'] = 'true'
+    sub = _find(pr, 'ProcessRunner', '_subprocess_func')
+    if sub is None or 'filtered_context=filtered_context' not in ast.unparse(sub):
+        out['fork'] = out['spawn'] = 'false'
+    base = _find(_src('runners/base.py'), 'run_or_load_task')
+    if base is None or 'task.set_context(filtered_context)' not in ast.unparse(base):
+        out = dict(serial='false', fork='false', spawn='false')
+    return out
+
+
 def render():
     sp = sched_params()
     lines = [
@@ -254,6 +277,8 @@ def render():
     vp = values_params()
     lines += ['Definition deser_mode_src : deser_mode := %(deser)s.' % vp,
               'Definition setstate_mode_src : setstate_mode := %(setstate)s.' % vp]
+    xp = ctx_params()
+    lines += ['Definition ctx_sites_src : ctx_sites := {| cf_serial := %(serial)s; cf_fork := %(fork)s; cf_spawn := %(spawn)s |}.' % xp]
     ep = exec_params()
     lines += ['Definition start_policy_src : start_policy := %(start)s.' % ep,
               'Definition proc_ctor_src : proc_ctor := %(ctor)s.' % ep]
